@@ -96,4 +96,11 @@ PROPS = {
         "assumptions": ["a data race is a property of the Go memory model and of gorgonia's global pools; no executable Gallina model exhibits it: the theorem covers the logical half (no Run writes state another Run reads, under pure_ops), the runtime half is explored under the race detector"],
         "explain": {},
     },
+    "C05": {
+        "check_modules": ["theories/Check/CheckC05.v"],
+        "theorem": "C05_*",
+        "trusted_base": COMMON_TB,
+        "assumptions": ["integer-valued float data: every intermediate value is an integer below 2^24, so float32/float64 arithmetic is exact and the comparison is exact; rounding of non-integer data is bounded by the dot-product length and not re-checked here"],
+        "explain": {"C05_conv": "Eval vm_compute in (spec the_case, model the_case, known_class the_case)."},
+    },
 }
